@@ -137,7 +137,8 @@ def common_probes(w):
             w.probe("disk_checkpoint_reread_runs")
         if s.cls == "Multistage" and m.ram_writes and m.disk_writes:
             w.probe("multistage_both_storages_runs")
-        if s.cls == "TwoLevel" and s.N % s.cfg["p"]["period"]:
+        if s.cls == "TwoLevel" and s.cfg["p"]["period"] > 0 and \
+                s.N % s.cfg["p"]["period"]:
             w.probe("twolevel_partial_last_block_runs")
         if m.passes >= 2:
             w.probe("second_pass_runs")
